@@ -56,9 +56,13 @@ package builtin
 //@ # one member, anything without a prefix or `|` is looked up as a name
 //@ func ti/builtin.parseTypeString
 //@   inline 3 1
-//@   bycontract MakeUnion
+//@   bycontract MakeUnion,MakeArray
 //@   ensures[C21] len(typeStr) > 1 && typeStr[0] == '?' ==> result.tType == base.UNION && len(result.variants) == 2 && result.variants[1].tType == old(NilT.tType) && result.variants[1].objectClass == old(NilT.objectClass)
 //@   ensures[C21] len(typeStr) > 1 && typeStr[0] == '*' ==> result.IsBuiltinAsterisk
+//@   # `[T]` is an array of exactly one member, and the member of `[[T]]` is again an array (one pair of
+//@   # brackets is removed per level, as the long form ["[T]"] / "TArray" nests)
+//@   ensures[C21] !(len(typeStr) > 1 && (typeStr[0] == '?' || typeStr[0] == '*')) && len(typeStr) > 2 && typeStr[0] == '[' && typeStr[len(typeStr)-1] == ']' ==> result.tType == base.ARRAY && len(result.variants) == 1
+//@   ensures[C21] len(typeStr) > 4 && typeStr[0] == '[' && typeStr[len(typeStr)-1] == ']' && typeStr[1] == '[' && typeStr[len(typeStr)-2] == ']' ==> result.variants[0].tType == base.ARRAY
 //@   # `A|B|C` is one flat union with as many members as the list form ["A","B","C"] has
 //@   ensures[C21] !(len(typeStr) > 1 && (typeStr[0] == '?' || typeStr[0] == '*')) && !(len(typeStr) > 2 && typeStr[0] == '[' && typeStr[len(typeStr)-1] == ']') && strings.Contains(typeStr, "|") ==> result.tType == base.UNION && len(result.variants) == len(strings.Split(typeStr, "|"))
 //@   loop 0 invariant[C21] rangeindex + 1 <= len(parts) && len(types) == rangeindex + 1
